@@ -43,9 +43,8 @@ def fmt(sig):
 
 
 def run(ctx):
-    from .configtime import no_lazily_filled_attributes as _no_lazy, no_state_outside_objects as _no_state2
-    _no_lazy(ctx, 'C09.R3', ('Recipe', 'RecipeStep', 'Plate'))
-    _no_state2(ctx, 'C09.R3', classes=('Recipe', 'RecipeStep', 'Plate'))
+    from .configtime import derived_values as _derived
+    _derived(ctx, 'C09.R3', ('Recipe', 'RecipeStep', 'Plate', 'Container', 'Slicer', 'PlateSlicer'))
     from .configtime import refusals_not_rounded_for_display as _gate_digits
     _gate_digits(ctx, 'C09.R4', ('Recipe.get_substance_used',))
     from .configtime import no_shared_mutable_defaults as _mutdef
